@@ -100,6 +100,7 @@ main(int argc, char** argv)
   int   n       = 0;
   int   next_id = 1;
   v_setup_io();
+  v_watchdog(20);
   while ((n = v_next(in, tok)) >= 0) {
     if (v_marker(n, tok)) {
       continue;
